@@ -149,7 +149,12 @@ def run_root(acc, d, r, seed):
           full[:d, d:] = 0.5
           full[d:, :d] = 0.5
         for p in (2, 4, 6, 8):
-          for eps, rel in ((1e-6, True), (1e-3, False)):
+          # relative ridge: the routine scales epsilon by a power-iteration
+          # estimate it does not report (observed 0.4% low on slowly
+          # separating spectra); epsilon = 1e-12 keeps the denoted matrix
+          # insensitive to that estimate (effect <= 1e-10) while the
+          # relative code path is still exercised.
+          for eps, rel in ((1e-12, True), (1e-3, False)):
             acc.states += 1
             acc.nontrivial += 1
             acc.transitions += 1
